@@ -358,6 +358,21 @@ def body_limit(ctx, case):
         except (M.RefNotFinite, _Timeout):
             labels.append(f"limit:{name}-reference-not-finite")
             continue
+        # the reference must itself have converged at f = 1e+-20000 (exponents such as b - 1 = -1e-5 approach their
+        # limit only at f = 1e+-10^6 and beyond): compare with a second, far more extreme frequency
+        try:
+            fmp2 = mp.mpf(10) ** (-2000000 if fval == 0 else 2000000)
+            if case["kind"] == "element":
+                zr2 = M.eval_equation(cls._equation, case["params"], [fmp2], dps=60)[0]
+            else:
+                zr2 = _with_timeout(20, lambda: M.eval_expr(obj.to_sympy(substitute=True), [fmp2], dps=60)[0])
+            with mp.workdps(60):
+                if abs(zr2 - zr) > mp.mpf("1e-7") * max(abs(zr2), abs(zr), abs(mp.mpc(L0))):
+                    labels.append(f"limit:{name}-reference-not-converged")
+                    continue
+        except (M.RefNotFinite, _Timeout):
+            labels.append(f"limit:{name}-reference-not-finite")
+            continue
         judged = True
         labels.append(f"limit:{name}-finite")
         try:
